@@ -63,6 +63,11 @@ func New(prop, tier, level, verifDir string) *Report {
 }
 
 func (r *Report) add(o Obligation) {
+	for _, x := range r.Obls {
+		if x.Key() == o.Key() && x.Status == o.Status && x.Detail == o.Detail {
+			return
+		}
+	}
 	r.Obls = append(r.Obls, o)
 }
 
